@@ -145,10 +145,19 @@ LabelTables(c) ==
          p \in { q \in Permutations(1..Len(le)) :
                    \A i, j \in 1..Len(le) : (i < j /\ le[q[i]][1] = le[q[j]][1]) => q[i] < q[j] } }
 Reverse2(s) == [i \in 1..Len(s) |-> s[Len(s) + 1 - i]]
-\* text sections: canonical, reversed, duplicated (references to the second copy, or alternating)
+\* text sections: canonical, reversed, duplicated (references to the second copy, or alternating), and a
+\* "colliding" arrangement: strings, an unreferenced filler, then the label names, with the filler sized so that
+\* the first name's offset (relative to the text section) is numerically equal to the first string's pointer
+\* value (relative to the data region) - the two coordinate systems must not be confused
 TextVariants(c, le) ==
   LET t == CanonTextSeq(c, le)
-  IN { <<t, "first">>, <<Reverse2(t), "first">>, <<t \o t, "last">>, <<t \o Reverse2(t), "alt">> }
+      strs == Distinct(Seconds(c.text))
+      names == Distinct(Seconds(le))
+      tstart == Len(c.data) + Len(PoolBytes(c)) + 4 * (Len(Internal(c)) + Len(c.text)) + 8 * Len(le)
+      fillLen == tstart - Len(ZBytes(strs)) - 1
+      collide == IF Len(strs) > 0 /\ Len(names) > 0 /\ fillLen >= 0
+                 THEN { << strs \o << [i \in 1..fillLen |-> 90] >> \o names, "last" >> } ELSE {}
+  IN { <<t, "first">>, <<Reverse2(t), "first">>, <<t \o t, "last">>, <<t \o Reverse2(t), "alt">> } \cup collide
 Layouts(c) ==
   UNION { { Image(c, pt, le, tv[1], tv[2]) : pt \in Perms(CanonPtrTable(c)), tv \in TextVariants(c, le) }
           : le \in LabelTables(c) }
@@ -177,8 +186,20 @@ HeaderOK(f, e) ==
         /\ ds <= Len(f) /\ pc <= Len(f) /\ lc <= Len(f)
         /\ 32 + ds + 4 * pc + 8 * lc <= Len(f)
 
-\* a header that declares more data, pointers or labels than the buffer holds MUST be rejected (C05)
-MustReject(f, e) == ~HeaderOK(f, e)
+\* every string a table entry refers to (string pointers, label names) is terminated inside the buffer
+StringsInside(f, e) ==
+  LET ds == Rd32(f, 4, e)  pc == Rd32(f, 8, e)  lc == Rd32(f, 12, e)
+      ptoff == 32 + ds  ltoff == ptoff + 4 * pc  tstart == ltoff + 8 * lc
+  IN /\ \A i \in 1..pc :
+          LET pa == Rd32(f, ptoff + 4 * (i - 1), e) IN
+          (pa # Huge /\ pa <= ds /\ pa + 4 <= ds) =>
+             LET pv == Rd32(f, 32 + pa, e) IN (pv = Huge \/ pv > ds) => (pv # Huge /\ pv <= Len(f) /\ Terminated(f, pv + 32))
+     /\ \A i \in 1..lc :
+          LET lo == Rd32(f, ltoff + 8 * (i - 1) + 4, e) IN lo # Huge /\ lo <= Len(f) /\ Terminated(f, tstart + lo)
+
+\* a header that declares more data, pointers or labels than the buffer holds, or a table entry whose string runs
+\* past the end of the buffer, MUST be rejected (C05)
+MustReject(f, e) == ~HeaderOK(f, e) \/ ~StringsInside(f, e)
 
 RefParse(f, e) ==
   IF ~HeaderOK(f, e) THEN Err
@@ -190,8 +211,8 @@ RefParse(f, e) ==
       tstart == ltoff + 8 * lc
       PAddr(i) == Rd32(f, ptoff + 4 * (i - 1), e)
       PVal(i)  == Rd32(data, PAddr(i), e)
-      PtrOK(i) == /\ PAddr(i) # Huge /\ PAddr(i) + 4 <= ds
-                  /\ (PVal(i) = Huge \/ PVal(i) > ds) => (PVal(i) # Huge /\ Terminated(f, PVal(i) + 32))
+      PtrOK(i) == /\ PAddr(i) # Huge /\ PAddr(i) <= ds /\ PAddr(i) + 4 <= ds
+                  /\ (PVal(i) = Huge \/ PVal(i) > ds) => (PVal(i) # Huge /\ PVal(i) <= Len(f) /\ Terminated(f, PVal(i) + 32))
       IsStr(i) == PVal(i) > ds
       LAddr(i) == Rd32(f, ltoff + 8 * (i - 1), e)
       LOff(i)  == Rd32(f, ltoff + 8 * (i - 1) + 4, e)
